@@ -71,7 +71,7 @@ def pcJson (prog : Prog) : Pc → String × Option Nat × Option Res
   | .uClosePkg _ _ => ("uClosePkg", some (opBid prog), none)
   | .iVerify => ("iVerify", some (opBid prog), none)
   | .iRename _ => ("iRename", some (opBid prog), none)
-  | .iAddOpen => ("iAddOpen", none, none) | .iAddLock => ("iAddLock", none, none)
+  | .iAddOpen => ("iAddOpen", none, none) | .iAddTouch => ("iAddTouch", none, none) | .iAddLock => ("iAddLock", none, none)
   | .iAddCreate => ("iAddCreate", none, none) | .iAddCreateLock => ("iAddCreateLock", none, none)
   | .iAddClose _ _ _ => ("iAddClose", none, none)
   | .gOpen => ("gOpen", none, none) | .gLock => ("gLock", none, none)
